@@ -86,6 +86,10 @@ func (r *Router) route(s Sender, p stanza.Packet) {
 // on the session, so every queued stanza with an Id up to lastSent is acknowledged and removed from the queue.
 // The other ones are sent again, in order, and stay in the queue until they are acknowledged.
 func SendMissingStz(lastSent int, s Sender, uaq *stanza.UnAckQueue) error {
+	if uaq == nil {
+		// Stream management was never enabled on this session: nothing is stored, there is nothing to send again.
+		return nil
+	}
 	uaq.RWMutex.Lock()
 	defer uaq.RWMutex.Unlock()
 	// Remove acknowledged stanzas from the queue
